@@ -13,18 +13,26 @@ Definition bare_single (q : oquirks) (o : op) : bool :=
   | ApiLint (TFile _) => q_api_file_no_finalize q
   | _ => false
   end.
-(* operations that end with the rules' finalize() *)
-Definition finalizing_op (q : oquirks) (o : op) : bool :=
-  match o with
-  | LintFile _ => false
-  | ApiLint (TFile _) => finalizes (api_file_entry q)
-  | Edit _ _ | Delete _ | Add _ _ => false
-  | _ => true
-  end.
+(* lint calls proper / everything that is not a change of the file system *)
+Definition lint_call (o : op) : bool :=
+  match o with LintFile _ | LintFiles _ | LintDir _ _ | ApiLint _ => true | _ => false end.
 Definition lint_op (o : op) : bool :=
   match o with Edit _ _ | Delete _ | Add _ _ => false | _ => true end.
+Definition touches (ip : path) (o : op) : bool :=
+  match o with Edit p _ | Delete p | Add p _ => p =? ip | _ => false end.
 
-Lemma clean_init : clean init. Proof. repeat split. Qed.
+(* Configuration is read when an object is built: a history is admissible when no lint call is made between a change
+   of the ignore file and the construction of the next Linter (d: the ignore file changed since the object was built) *)
+Fixpoint hist_synced (ip : path) (d : bool) (h : list op) : bool :=
+  match h with
+  | [] => true
+  | o :: r =>
+      match o with
+      | NewLinter => hist_synced ip false r
+      | Edit _ _ | Delete _ | Add _ _ => hist_synced ip (d || touches ip o) r
+      | _ => negb d && hist_synced ip d r
+      end
+  end.
 
 Lemma filter_perm {A} (f : A -> bool) l l' : Permutation l l' -> Permutation (filter f l) (filter f l').
 Proof.
@@ -35,226 +43,278 @@ Proof.
   - now transitivity (filter f l').
 Qed.
 
+Lemma fs_get_untouched ip fs o : touches ip o = false -> fs_get (fs_step fs o) ip = fs_get fs ip.
+Proof.
+  assert (REM : forall f p, (p =? ip) = false -> fs_get (fs_remove f p) ip = fs_get f ip).
+  { intros f p Hp. induction f as [|[p' c'] r IH]; [reflexivity|]. cbn [fs_remove filter fst negb].
+    destruct (p =? p') eqn:E; cbn [negb].
+    - apply Nat.eqb_eq in E. subst p'. cbn [fs_get]. rewrite Nat.eqb_sym, Hp. exact IH.
+    - cbn [fs_get]. destruct (ip =? p'); [reflexivity|exact IH]. }
+  destruct o as [p|ps|d l|t|p c|p|p c|]; cbn [touches fs_step]; intros T; try reflexivity.
+  - destruct (fs_get fs p); [|reflexivity]. unfold fs_set. cbn [fs_get]. rewrite Nat.eqb_sym, T. now apply REM.
+  - now apply REM.
+  - unfold fs_set. cbn [fs_get]. rewrite Nat.eqb_sym, T. now apply REM.
+Qed.
+
 Section Main.
   Variable V : Type.
   Variable perfile : path -> option content -> list V.
   Variable rep_blocks : list fv -> list fv -> list V.
   Variable rep_consts rep_st : list fv -> list V.
-  Variable hard_excl ignored : path -> bool.
+  Variable hard_excl : path -> bool.
+  Variable ignored : option content -> path -> bool.
+  Variable ign_path : path.
   Variable in_dir : nat -> path -> bool.
 
   Notation run_entry := (run_entry V perfile rep_blocks rep_consts rep_st hard_excl ignored).
   Notation run_single := (run_single V perfile rep_blocks rep_consts rep_st hard_excl ignored).
-  Notation step := (step V perfile rep_blocks rep_consts rep_st hard_excl ignored in_dir).
-  Notation run := (run V perfile rep_blocks rep_consts rep_st hard_excl ignored in_dir).
-  Notation fresh := (fresh V perfile rep_blocks rep_consts rep_st hard_excl ignored in_dir).
+  Notation step := (step V perfile rep_blocks rep_consts rep_st hard_excl ignored ign_path in_dir).
+  Notation run := (run V perfile rep_blocks rep_consts rep_st hard_excl ignored ign_path in_dir).
+  Notation freshN := (fresh V perfile rep_blocks rep_consts rep_st hard_excl ignored ign_path in_dir).
+  Notation mk_init := (mk_init ign_path).
   Notation coherent := (coherent ignored).
   Notation evid := (evid hard_excl ignored).
   Notation pfout := (pfout V perfile hard_excl ignored).
+  Notation REF := (run_entry_finalizing V perfile rep_blocks rep_consts rep_st hard_excl ignored).
+  Notation REP := (run_entry_plain V perfile rep_blocks rep_consts rep_st hard_excl ignored).
 
   (* what a fresh object returns after each prefix of a history *)
   Fixpoint fresh_run (q : oquirks) (fs : fsys) (h : list op) : list (out V) :=
-    match h with [] => [] | o :: r => fresh q fs o :: fresh_run q (fs_step fs o) r end.
+    match h with [] => [] | o :: r => freshN q fs o :: fresh_run q (fs_step fs o) r end.
+
+  Lemma clean_init pp : clean (init_st pp). Proof. repeat split. Qed.
 
   (* ---------- one entry-point call from an arbitrary state ---------- *)
-  Lemma run_single_char q entry fs st p : coherent (icache st) ->
-    let r := run_single q entry fs st p in
-    coherent (icache (fst r)) /\
+  Lemma run_single_char q entry fs st p : coherent st ->
+    let r := run_single q entry fs st p in let pp := ppats st in
+    coherent (fst r) /\ ppats (fst r) = pp /\
     (finalizes entry = true -> r = run_entry q entry fs st [p]) /\
     (finalizes entry = false ->
-       snd r = Build_out (pfout fs [p]) [] [] [] /\
-       dry_rows (fst r) = (if q_lintfile_leaves_evidence q then dry_rows st ++ evid fs [p] else dry_rows st) /\
-       dry_aux (fst r) = (if q_lintfile_leaves_evidence q then dry_aux st ++ evid fs [p] else dry_aux st) /\
-       st_ev (fst r) = (if q_lintfile_leaves_evidence q then st_ev st ++ evid fs [p] else st_ev st)).
+       snd r = Build_out (pfout pp fs [p]) [] [] [] /\
+       dry_rows (fst r) = (if q_lintfile_leaves_evidence q then dry_rows st ++ evid pp fs [p] else dry_rows st) /\
+       dry_aux (fst r) = (if q_lintfile_leaves_evidence q then dry_aux st ++ evid pp fs [p] else dry_aux st) /\
+       st_ev (fst r) = (if q_lintfile_leaves_evidence q then st_ev st ++ evid pp fs [p] else st_ev st)).
   Proof.
-    intros C. unfold OrchHist.run_single. destruct (finalizes entry) eqn:F.
-    - pose proof (run_entry_finalizing V perfile rep_blocks rep_consts rep_st hard_excl ignored q entry fs st [p] F C) as (_ & _ & _ & _ & H5).
-      destruct (run_entry q entry fs st [p]) as [s1 o]. cbn [fst snd] in *. split; [exact H5|]. split; [reflexivity|discriminate].
-    - pose proof (run_entry_plain V perfile rep_blocks rep_consts rep_st hard_excl ignored q entry fs st [p] F C) as (H1 & H2 & H3 & H4 & H5).
+    intros C. unfold OrchHist.run_single. cbn zeta. destruct (finalizes entry) eqn:F.
+    - pose proof (REF q entry fs st [p] F C) as (_ & _ & _ & _ & H5 & H6).
       destruct (run_entry q entry fs st [p]) as [s1 o]. cbn [fst snd] in *.
-      destruct (q_lintfile_leaves_evidence q); cbn [fst snd keep_evidence dry_rows dry_aux st_ev icache];
-        (split; [exact H5|]); (split; [discriminate|]); intros _; repeat split; assumption.
+      split; [exact H5|]. split; [exact H6|]. split; [reflexivity|discriminate].
+    - pose proof (REP q entry fs st [p] F C) as (H1 & H2 & H3 & H4 & H5 & H6).
+      destruct (run_entry q entry fs st [p]) as [s1 o]. cbn [fst snd] in *.
+      destruct (q_lintfile_leaves_evidence q); cbn [fst snd keep_evidence dry_rows dry_aux st_ev icache ppats].
+      + split; [exact H5|]. split; [exact H6|]. split; [discriminate|]. intros _. repeat split; assumption.
+      + split; [intros x b Hx; cbn [icache ppats] in *; apply (H5 x b Hx)|]. split; [exact H6|]. split; [discriminate|].
+        intros _. repeat split; assumption.
   Qed.
 
   (* ---------- Theorem A: history independence ---------- *)
-  Lemma step_clean q st fs o :
+  Lemma step_lint_clean q st fs o :
+    lint_call o = true ->
     q_dry_keeps_storage q = false ->
     (q_lintfile_leaves_evidence q = false \/ bare_single q o = false) ->
-    clean st -> coherent (icache st) ->
+    clean st -> coherent st -> ppats st = fs_get fs ign_path ->
     let r := step q (st, fs) o in
-    clean (fst (fst r)) /\ coherent (icache (fst (fst r))) /\ snd r = fresh q fs o.
+    clean (fst (fst r)) /\ coherent (fst (fst r)) /\ ppats (fst (fst r)) = ppats st /\ snd r = freshN q fs o.
   Proof.
-    intros D L (R1 & R2 & R3) C. unfold OrchHist.fresh.
-    assert (Ci : coherent (icache init)) by apply coherent_nil.
+    intros LC D L (R1 & R2 & R3) C S. unfold OrchHist.fresh.
+    assert (Ci : coherent (mk_init fs)) by apply coherent_init.
+    assert (Si : ppats (mk_init fs) = ppats st) by (symmetry; exact S).
     assert (FIN : forall entry ps, finalizes entry = true ->
                let r := run_entry q entry fs st ps in
-               clean (fst r) /\ coherent (icache (fst r)) /\ snd r = snd (run_entry q entry fs init ps)).
+               clean (fst r) /\ coherent (fst r) /\ ppats (fst r) = ppats st /\ snd r = snd (run_entry q entry fs (mk_init fs) ps)).
     { intros entry ps F.
-      pose proof (run_entry_finalizing V perfile rep_blocks rep_consts rep_st hard_excl ignored q entry fs st ps F C) as (H1 & H2 & H3 & H4 & H5).
-      pose proof (run_entry_finalizing V perfile rep_blocks rep_consts rep_st hard_excl ignored q entry fs init ps F Ci) as (K1 & _).
-      cbn zeta. rewrite H1, K1, R1, R2, R3. cbn [init dry_rows dry_aux st_ev app].
-      split; [|split; [exact H5|reflexivity]]. unfold clean. rewrite H2, H3, H4, (rows_reset_when_off q D). repeat split. }
+      pose proof (REF q entry fs st ps F C) as (H1 & H2 & H3 & H4 & H5 & H6).
+      pose proof (REF q entry fs (mk_init fs) ps F Ci) as (K1 & _).
+      cbn zeta in *. rewrite H1, K1, Si, R1, R2, R3. cbn [OrchHist.mk_init init_st dry_rows dry_aux st_ev app].
+      split; [|split; [exact H5|split; [exact H6|reflexivity]]]. unfold clean. rewrite H2, H3, H4, (rows_reset_when_off q D). repeat split. }
     assert (SGL : forall entry p,
                (q_lintfile_leaves_evidence q = false \/ finalizes entry = true) ->
                let r := run_single q entry fs st p in
-               clean (fst r) /\ coherent (icache (fst r)) /\ snd r = snd (run_single q entry fs init p)).
+               clean (fst r) /\ coherent (fst r) /\ ppats (fst r) = ppats st /\ snd r = snd (run_single q entry fs (mk_init fs) p)).
     { intros entry p Hl.
-      pose proof (run_single_char q entry fs st p C) as (H0 & Hf & Hp).
-      pose proof (run_single_char q entry fs init p Ci) as (_ & Kf & Kp).
-      cbn zeta. destruct (finalizes entry) eqn:F.
-      - rewrite (Hf eq_refl), (Kf eq_refl). rewrite <- F in *. apply FIN. now rewrite F.
+      pose proof (run_single_char q entry fs st p C) as (H0 & H6 & Hf & Hp).
+      pose proof (run_single_char q entry fs (mk_init fs) p Ci) as (_ & _ & Kf & Kp).
+      cbn zeta in *. destruct (finalizes entry) eqn:F.
+      - rewrite (Hf eq_refl), (Kf eq_refl). apply FIN. exact F.
       - destruct Hl as [Hl|Hl]; [|discriminate].
         destruct (Hp eq_refl) as (H1 & H2 & H3 & H4). destruct (Kp eq_refl) as (K1 & _).
-        rewrite H1, K1. split; [|split; [exact H0|reflexivity]].
+        rewrite H1, K1, Si. split; [|split; [exact H0|split; [exact H6|reflexivity]]].
         unfold clean. rewrite H2, H3, H4, Hl. repeat split; assumption. }
-    destruct o as [p|ps|d l|[p|d l]|p c|p|p c]; cbn [OrchHist.step bare_single] in *.
+    destruct o as [p|ps|d l|[p|d l]|p c|p|p c|]; cbn [OrchHist.step bare_single lint_call] in *; try discriminate.
     - specialize (SGL "lint_file" p). destruct (run_single q "lint_file" fs st p) as [s r].
-      destruct (run_single q "lint_file" fs init p) as [s' r']. cbn [fst snd] in *. apply SGL.
+      destruct (run_single q "lint_file" fs (mk_init fs) p) as [s' r']. cbn [fst snd] in *. apply SGL.
       destruct L as [L|L]; [now left|discriminate].
     - specialize (FIN "lint_files" ps gen_lint_files_finalizes). destruct (run_entry q "lint_files" fs st ps) as [s r].
-      destruct (run_entry q "lint_files" fs init ps) as [s' r']. exact FIN.
+      destruct (run_entry q "lint_files" fs (mk_init fs) ps) as [s' r']. exact FIN.
     - specialize (FIN "lint_directory" (walk in_dir fs d l) gen_lint_directory_finalizes).
-      destruct (run_entry q "lint_directory" fs st _) as [s r]. destruct (run_entry q "lint_directory" fs init _) as [s' r']. exact FIN.
+      destruct (run_entry q "lint_directory" fs st _) as [s r]. destruct (run_entry q "lint_directory" fs (mk_init fs) _) as [s' r']. exact FIN.
     - destruct (fs_get fs p).
       + specialize (SGL (api_file_entry q) p). destruct (run_single q (api_file_entry q) fs st p) as [s r].
-        destruct (run_single q (api_file_entry q) fs init p) as [s' r']. cbn [fst snd] in *. apply SGL.
+        destruct (run_single q (api_file_entry q) fs (mk_init fs) p) as [s' r']. cbn [fst snd] in *. apply SGL.
         destruct L as [L|L]; [now left|]. right. rewrite (api_entry_when_off q L). reflexivity.
       + cbn [fst snd]. repeat split; assumption.
     - specialize (FIN api_dir_entry (walk in_dir fs d l)). rewrite gen_api_dir_entry in *. specialize (FIN gen_lint_directory_finalizes).
-      destruct (run_entry q "lint_directory" fs st _) as [s r]. destruct (run_entry q "lint_directory" fs init _) as [s' r']. exact FIN.
-    - cbn [fst snd]. repeat split; assumption.
-    - cbn [fst snd]. repeat split; assumption.
-    - cbn [fst snd]. repeat split; assumption.
+      destruct (run_entry q "lint_directory" fs st _) as [s r]. destruct (run_entry q "lint_directory" fs (mk_init fs) _) as [s' r']. exact FIN.
   Qed.
 
-  Lemma run_clean q h : forall st fs,
-    q_dry_keeps_storage q = false ->
+  Lemma run_clean q h : forall d st fs,
+    q_dry_keeps_storage q = false -> q_ignore_parser_reused q = false ->
     (q_lintfile_leaves_evidence q = false \/ forallb (fun o => negb (bare_single q o)) h = true) ->
-    clean st -> coherent (icache st) ->
-    let r := run q (st, fs) h in
-    clean (fst (fst r)) /\ coherent (icache (fst (fst r))) /\ snd r = fresh_run q fs h.
+    hist_synced ign_path d h = true ->
+    clean st -> coherent st -> (d = false -> ppats st = fs_get fs ign_path) ->
+    snd (run q (st, fs) h) = fresh_run q fs h.
   Proof.
-    induction h as [|o r IH]; intros st fs D L K C; cbn [OrchHist.run fresh_run].
-    - cbn [fst snd]. repeat split; try apply K. exact C.
-    - assert (Lo : q_lintfile_leaves_evidence q = false \/ bare_single q o = false).
-      { destruct L as [L|L]; [now left|]. right. cbn [forallb] in L. apply andb_true_iff in L. destruct L as [L _].
-        now apply negb_true_iff in L. }
-      assert (Lr : q_lintfile_leaves_evidence q = false \/ forallb (fun o => negb (bare_single q o)) r = true).
-      { destruct L as [L|L]; [now left|]. right. cbn [forallb] in L. apply andb_true_iff in L. apply L. }
-      pose proof (step_clean q st fs o D Lo K C) as (K1 & C1 & E1).
-      pose proof (step_fs V perfile rep_blocks rep_consts rep_st hard_excl ignored in_dir q st fs o) as Hfs.
-      destruct (step q (st, fs) o) as [[s1 f1] x]. cbn [fst snd] in K1, C1, E1, Hfs. subst f1 x.
-      specialize (IH s1 (fs_step fs o) D Lr K1 C1). destruct (run q (s1, fs_step fs o) r) as [w2 xs].
-      cbn [fst snd] in IH |- *. destruct IH as (K2 & C2 & E2). rewrite E2. repeat split; try apply K2. exact C2.
+    induction h as [|o r IH]; intros d st fs D R L HS K C S; cbn [OrchHist.run fresh_run]; [reflexivity|].
+    assert (Lo : q_lintfile_leaves_evidence q = false \/ bare_single q o = false).
+    { destruct L as [L|L]; [now left|]. right. cbn [forallb] in L. apply andb_true_iff in L. destruct L as [L _].
+      now apply negb_true_iff in L. }
+    assert (Lr : q_lintfile_leaves_evidence q = false \/ forallb (fun o => negb (bare_single q o)) r = true).
+    { destruct L as [L|L]; [now left|]. right. cbn [forallb] in L. apply andb_true_iff in L. apply L. }
+    destruct (lint_call o) eqn:LC.
+    - assert (Hd : d = false /\ hist_synced ign_path d r = true).
+      { destruct o; cbn [lint_call] in LC; try discriminate; cbn [hist_synced] in HS; apply andb_true_iff in HS;
+          destruct HS as [H1 H2]; apply negb_true_iff in H1; split; assumption. }
+      destruct Hd as [Hd HSr]. specialize (S Hd).
+      pose proof (step_lint_clean q st fs o LC D Lo K C S) as (K1 & C1 & P1 & E1).
+      pose proof (step_fs V perfile rep_blocks rep_consts rep_st hard_excl ignored ign_path in_dir q st fs o) as Hfs.
+      destruct (step q (st, fs) o) as [[s1 f1] x]. cbn [fst snd] in K1, C1, P1, E1, Hfs. subst f1 x.
+      assert (Ef : fs_step fs o = fs) by (destruct o; cbn [lint_call] in LC; try discriminate; reflexivity).
+      rewrite Ef in *. specialize (IH d s1 fs D R Lr HSr K1 C1). destruct (run q (s1, fs) r) as [w2 xs]. cbn [fst snd] in *.
+      f_equal. apply IH. intros _. now rewrite P1.
+    - destruct o as [p|ps|dd l|t|p c|p|p c|]; cbn [lint_call] in LC; try discriminate.
+      + cbn [OrchHist.step fs_step hist_synced] in *. unfold OrchHist.fresh at 1. cbn [OrchHist.step snd].
+        match goal with |- context [run q (st, ?f) r] => specialize (IH (d || (p =? ign_path)) st f D R Lr HS K C); destruct (run q (st, f) r) as [w2 xs] end.
+        cbn [fst snd] in *. f_equal. apply IH. intros Hd. apply orb_false_iff in Hd. destruct Hd as [Hd Ht].
+        rewrite (S Hd). symmetry. apply (fs_get_untouched ign_path fs (Edit p c)). exact Ht.
+      + cbn [OrchHist.step fs_step hist_synced] in *. unfold OrchHist.fresh at 1. cbn [OrchHist.step snd].
+        match goal with |- context [run q (st, ?f) r] => specialize (IH (d || (p =? ign_path)) st f D R Lr HS K C); destruct (run q (st, f) r) as [w2 xs] end.
+        cbn [fst snd] in *. f_equal. apply IH. intros Hd. apply orb_false_iff in Hd. destruct Hd as [Hd Ht].
+        rewrite (S Hd). symmetry. apply (fs_get_untouched ign_path fs (Delete p)). exact Ht.
+      + cbn [OrchHist.step fs_step hist_synced] in *. unfold OrchHist.fresh at 1. cbn [OrchHist.step snd].
+        match goal with |- context [run q (st, ?f) r] => specialize (IH (d || (p =? ign_path)) st f D R Lr HS K C); destruct (run q (st, f) r) as [w2 xs] end.
+        cbn [fst snd] in *. f_equal. apply IH. intros Hd. apply orb_false_iff in Hd. destruct Hd as [Hd Ht].
+        rewrite (S Hd). symmetry. apply (fs_get_untouched ign_path fs (Add p c)). exact Ht.
+      + cbn [OrchHist.step fs_step hist_synced] in *. unfold OrchHist.fresh at 1. cbn [OrchHist.step snd]. rewrite R.
+        specialize (IH false (mk_init fs) fs D R Lr HS (clean_init _) (coherent_init ignored _)). destruct (run q (mk_init fs, fs) r) as [w2 xs].
+        cbn [fst snd] in *. f_equal. apply IH. intros _. reflexivity.
   Qed.
 
-  (* every call of every history returns what a fresh object returns on the file system as it is then *)
+  (* every call of every admissible history returns what a fresh object returns on the file system as it is then *)
   Theorem history_independent q fs0 h :
-    q_dry_keeps_storage q = false -> q_lintfile_leaves_evidence q = false ->
-    snd (run q (init, fs0) h) = fresh_run q fs0 h.
+    q_dry_keeps_storage q = false -> q_lintfile_leaves_evidence q = false -> q_ignore_parser_reused q = false ->
+    hist_synced ign_path false h = true ->
+    snd (run q (mk_init fs0, fs0) h) = fresh_run q fs0 h.
   Proof.
-    intros D L. apply (run_clean q h init fs0 D (or_introl L) clean_init (coherent_nil ignored)).
+    intros D L R HS. apply (run_clean q h false (mk_init fs0) fs0 D R (or_introl L) HS (clean_init _) (coherent_init ignored _)).
+    intros _. reflexivity.
   Qed.
 
   (* the same without bare single-file calls: only the DRY storage has to be reset *)
   Theorem history_independent_batch q fs0 h :
-    q_dry_keeps_storage q = false -> forallb (fun o => negb (bare_single q o)) h = true ->
-    snd (run q (init, fs0) h) = fresh_run q fs0 h.
+    q_dry_keeps_storage q = false -> q_ignore_parser_reused q = false ->
+    forallb (fun o => negb (bare_single q o)) h = true -> hist_synced ign_path false h = true ->
+    snd (run q (mk_init fs0, fs0) h) = fresh_run q fs0 h.
   Proof.
-    intros D L. apply (run_clean q h init fs0 D (or_intror L) clean_init (coherent_nil ignored)).
-  Qed.
-
-  (* "on its next call exactly what a fresh object would return" *)
-  Corollary next_call_as_fresh q fs0 h o :
-    q_dry_keeps_storage q = false -> q_lintfile_leaves_evidence q = false ->
-    snd (step q (fst (run q (init, fs0) h)) o) = fresh q (fs_after fs0 h) o.
-  Proof.
-    intros D L.
-    pose proof (run_clean q h init fs0 D (or_introl L) clean_init (coherent_nil ignored)) as (K & C & _).
-    pose proof (run_fs V perfile rep_blocks rep_consts rep_st hard_excl ignored in_dir q h init fs0) as Hfs.
-    destruct (run q (init, fs0) h) as [[s f] xs]. cbn [fst snd] in *. subst f.
-    apply (step_clean q s (fs_after fs0 h) o D (or_introl L) K C).
+    intros D R L HS. apply (run_clean q h false (mk_init fs0) fs0 D R (or_intror L) HS (clean_init _) (coherent_init ignored _)).
+    intros _. reflexivity.
   Qed.
 
   (* ---------- Theorem C: confinement — with only the DRY storage surviving, everything but the
      duplicate-code part of every call is what a fresh object returns ---------- *)
-  Lemma step_semi q st fs o :
-    q_lintfile_leaves_evidence q = false -> semi_clean st -> coherent (icache st) ->
-    let r := step q (st, fs) o in let f := fresh q fs o in
-    semi_clean (fst (fst r)) /\ coherent (icache (fst (fst r))) /\
-    o_pf (snd r) = o_pf f /\ o_consts (snd r) = o_consts f /\ o_st (snd r) = o_st f /\
-    o_blocks (snd r) = (if finalizing_op q o && negb (match o with ApiLint (TFile p) => match fs_get fs p with None => true | _ => false end | _ => false end)
-                        then let e := evid fs (match o with
-                                               | LintFiles ps => ps | LintDir d l => walk in_dir fs d l
-                                               | ApiLint (TDir d l) => walk in_dir fs d l
-                                               | ApiLint (TFile p) => [p] | LintFile p => [p] | _ => [] end) in
-                             rep_blocks (dry_rows st ++ e) e
-                        else []).
-  Proof.
-    intros L (R2 & R3) C. unfold OrchHist.fresh.
-    assert (Ci : coherent (icache init)) by apply coherent_nil.
-    assert (FIN : forall entry ps, finalizes entry = true ->
-               let r := run_entry q entry fs st ps in let f := snd (run_entry q entry fs init ps) in
-               semi_clean (fst r) /\ coherent (icache (fst r)) /\ o_pf (snd r) = o_pf f /\ o_consts (snd r) = o_consts f
-               /\ o_st (snd r) = o_st f /\ o_blocks (snd r) = rep_blocks (dry_rows st ++ evid fs ps) (evid fs ps)).
-    { intros entry ps F.
-      pose proof (run_entry_finalizing V perfile rep_blocks rep_consts rep_st hard_excl ignored q entry fs st ps F C) as (H1 & H2 & H3 & H4 & H5).
-      pose proof (run_entry_finalizing V perfile rep_blocks rep_consts rep_st hard_excl ignored q entry fs init ps F Ci) as (K1 & _).
-      cbn zeta. rewrite H1, K1, R2, R3. cbn [init dry_rows dry_aux st_ev app o_pf o_blocks o_consts o_st].
-      unfold semi_clean. rewrite H3, H4. repeat split. exact H5. }
-    assert (SGL : forall entry p,
-               let r := run_single q entry fs st p in let f := snd (run_single q entry fs init p) in
-               semi_clean (fst r) /\ coherent (icache (fst r)) /\ o_pf (snd r) = o_pf f /\ o_consts (snd r) = o_consts f
-               /\ o_st (snd r) = o_st f /\ o_blocks (snd r) = (if finalizes entry then rep_blocks (dry_rows st ++ evid fs [p]) (evid fs [p]) else [])).
-    { intros entry p.
-      pose proof (run_single_char q entry fs st p C) as (H0 & Hf & Hp).
-      pose proof (run_single_char q entry fs init p Ci) as (_ & Kf & Kp).
-      cbn zeta. destruct (finalizes entry) eqn:F.
-      - rewrite (Hf eq_refl), (Kf eq_refl). apply FIN. exact F.
-      - destruct (Hp eq_refl) as (H1 & H2 & H3 & H4). destruct (Kp eq_refl) as (K1 & _).
-        rewrite H1, K1. cbn [o_pf o_blocks o_consts o_st]. unfold semi_clean. rewrite H3, H4, L. repeat split; assumption. }
-    destruct o as [p|ps|d l|[p|d l]|p c|p|p c]; cbn [OrchHist.step finalizing_op andb negb] in *.
-    - specialize (SGL "lint_file" p). rewrite gen_lint_file_no_finalize in SGL.
-      destruct (run_single q "lint_file" fs st p) as [s r]. destruct (run_single q "lint_file" fs init p) as [s' r']. exact SGL.
-    - specialize (FIN "lint_files" ps gen_lint_files_finalizes). destruct (run_entry q "lint_files" fs st ps) as [s r].
-      destruct (run_entry q "lint_files" fs init ps) as [s' r']. exact FIN.
-    - specialize (FIN "lint_directory" (walk in_dir fs d l) gen_lint_directory_finalizes).
-      destruct (run_entry q "lint_directory" fs st _) as [s r]. destruct (run_entry q "lint_directory" fs init _) as [s' r']. exact FIN.
-    - destruct (fs_get fs p).
-      + specialize (SGL (api_file_entry q) p). rewrite andb_true_r.
-        destruct (run_single q (api_file_entry q) fs st p) as [s r]; destruct (run_single q (api_file_entry q) fs init p) as [s' r'].
-        exact SGL.
-      + cbn [fst snd out_nil o_pf o_blocks o_consts o_st]. rewrite andb_false_r. repeat split; assumption.
-    - specialize (FIN api_dir_entry (walk in_dir fs d l)). rewrite gen_api_dir_entry in *. specialize (FIN gen_lint_directory_finalizes).
-      destruct (run_entry q "lint_directory" fs st _) as [s r]. destruct (run_entry q "lint_directory" fs init _) as [s' r']. exact FIN.
-    - cbn [fst snd out_nil o_pf o_blocks o_consts o_st]. repeat split; assumption.
-    - cbn [fst snd out_nil o_pf o_blocks o_consts o_st]. repeat split; assumption.
-    - cbn [fst snd out_nil o_pf o_blocks o_consts o_st]. repeat split; assumption.
-  Qed.
-
   Definition same_but_blocks (a b : out V) : Prop := o_pf a = o_pf b /\ o_consts a = o_consts b /\ o_st a = o_st b.
 
-  Lemma run_semi q h : forall st fs,
-    q_lintfile_leaves_evidence q = false -> semi_clean st -> coherent (icache st) ->
+  Lemma step_lint_semi q st fs o :
+    lint_call o = true -> q_lintfile_leaves_evidence q = false ->
+    semi_clean st -> coherent st -> ppats st = fs_get fs ign_path ->
+    let r := step q (st, fs) o in
+    semi_clean (fst (fst r)) /\ coherent (fst (fst r)) /\ ppats (fst (fst r)) = ppats st /\ same_but_blocks (snd r) (freshN q fs o).
+  Proof.
+    intros LC L (R2 & R3) C S. unfold OrchHist.fresh.
+    assert (Ci : coherent (mk_init fs)) by apply coherent_init.
+    assert (Si : ppats (mk_init fs) = ppats st) by (symmetry; exact S).
+    assert (FIN : forall entry ps, finalizes entry = true ->
+               let r := run_entry q entry fs st ps in
+               semi_clean (fst r) /\ coherent (fst r) /\ ppats (fst r) = ppats st /\ same_but_blocks (snd r) (snd (run_entry q entry fs (mk_init fs) ps))).
+    { intros entry ps F.
+      pose proof (REF q entry fs st ps F C) as (H1 & H2 & H3 & H4 & H5 & H6).
+      pose proof (REF q entry fs (mk_init fs) ps F Ci) as (K1 & _).
+      cbn zeta in *. rewrite H1, K1, Si, R2, R3. cbn [OrchHist.mk_init init_st dry_rows dry_aux st_ev app].
+      unfold semi_clean, same_but_blocks. cbn [o_pf o_consts o_st]. rewrite H3, H4. repeat split; assumption. }
+    assert (SGL : forall entry p,
+               let r := run_single q entry fs st p in
+               semi_clean (fst r) /\ coherent (fst r) /\ ppats (fst r) = ppats st /\ same_but_blocks (snd r) (snd (run_single q entry fs (mk_init fs) p))).
+    { intros entry p.
+      pose proof (run_single_char q entry fs st p C) as (H0 & H6 & Hf & Hp).
+      pose proof (run_single_char q entry fs (mk_init fs) p Ci) as (_ & _ & Kf & Kp).
+      cbn zeta in *. destruct (finalizes entry) eqn:F.
+      - rewrite (Hf eq_refl), (Kf eq_refl). apply FIN. exact F.
+      - destruct (Hp eq_refl) as (H1 & H2 & H3 & H4). destruct (Kp eq_refl) as (K1 & _).
+        rewrite H1, K1, Si. unfold semi_clean, same_but_blocks. rewrite H3, H4, L. repeat split; assumption. }
+    destruct o as [p|ps|d l|[p|d l]|p c|p|p c|]; cbn [OrchHist.step lint_call] in *; try discriminate.
+    - specialize (SGL "lint_file" p). destruct (run_single q "lint_file" fs st p) as [s r].
+      destruct (run_single q "lint_file" fs (mk_init fs) p) as [s' r']. exact SGL.
+    - specialize (FIN "lint_files" ps gen_lint_files_finalizes). destruct (run_entry q "lint_files" fs st ps) as [s r].
+      destruct (run_entry q "lint_files" fs (mk_init fs) ps) as [s' r']. exact FIN.
+    - specialize (FIN "lint_directory" (walk in_dir fs d l) gen_lint_directory_finalizes).
+      destruct (run_entry q "lint_directory" fs st _) as [s r]. destruct (run_entry q "lint_directory" fs (mk_init fs) _) as [s' r']. exact FIN.
+    - destruct (fs_get fs p).
+      + specialize (SGL (api_file_entry q) p). destruct (run_single q (api_file_entry q) fs st p) as [s r].
+        destruct (run_single q (api_file_entry q) fs (mk_init fs) p) as [s' r']. exact SGL.
+      + cbn [fst snd]. repeat split; assumption.
+    - specialize (FIN api_dir_entry (walk in_dir fs d l)). rewrite gen_api_dir_entry in *. specialize (FIN gen_lint_directory_finalizes).
+      destruct (run_entry q "lint_directory" fs st _) as [s r]. destruct (run_entry q "lint_directory" fs (mk_init fs) _) as [s' r']. exact FIN.
+  Qed.
+
+  Lemma same_but_blocks_refl a : same_but_blocks a a. Proof. repeat split. Qed.
+
+  Lemma run_semi q h : forall d st fs,
+    q_lintfile_leaves_evidence q = false -> q_ignore_parser_reused q = false ->
+    hist_synced ign_path d h = true ->
+    semi_clean st -> coherent st -> (d = false -> ppats st = fs_get fs ign_path) ->
     Forall2 same_but_blocks (snd (run q (st, fs) h)) (fresh_run q fs h).
   Proof.
-    induction h as [|o r IH]; intros st fs L K C; cbn [OrchHist.run fresh_run]; [constructor|].
-    pose proof (step_semi q st fs o L K C) as (K1 & C1 & E1 & E2 & E3 & _).
-    pose proof (step_fs V perfile rep_blocks rep_consts rep_st hard_excl ignored in_dir q st fs o) as Hfs.
-    destruct (step q (st, fs) o) as [[s1 f1] x]. cbn [fst snd] in K1, C1, E1, E2, E3, Hfs. subst f1.
-    specialize (IH s1 (fs_step fs o) L K1 C1). destruct (run q (s1, fs_step fs o) r) as [w2 xs].
-    cbn [fst snd] in IH |- *. constructor; [|exact IH]. repeat split; assumption.
+    induction h as [|o r IH]; intros d st fs L R HS K C S; cbn [OrchHist.run fresh_run]; [constructor|].
+    destruct (lint_call o) eqn:LC.
+    - assert (Hd : d = false /\ hist_synced ign_path d r = true).
+      { destruct o; cbn [lint_call] in LC; try discriminate; cbn [hist_synced] in HS; apply andb_true_iff in HS;
+          destruct HS as [H1 H2]; apply negb_true_iff in H1; split; assumption. }
+      destruct Hd as [Hd HSr]. specialize (S Hd).
+      pose proof (step_lint_semi q st fs o LC L K C S) as (K1 & C1 & P1 & E1).
+      pose proof (step_fs V perfile rep_blocks rep_consts rep_st hard_excl ignored ign_path in_dir q st fs o) as Hfs.
+      destruct (step q (st, fs) o) as [[s1 f1] x]. cbn [fst snd] in K1, C1, P1, E1, Hfs. subst f1.
+      assert (Ef : fs_step fs o = fs) by (destruct o; cbn [lint_call] in LC; try discriminate; reflexivity).
+      rewrite Ef in *. specialize (IH d s1 fs L R HSr K1 C1). destruct (run q (s1, fs) r) as [w2 xs]. cbn [fst snd] in *.
+      constructor; [exact E1|]. apply IH. intros _. now rewrite P1.
+    - destruct o as [p|ps|dd l|t|p c|p|p c|]; cbn [lint_call] in LC; try discriminate.
+      + cbn [OrchHist.step fs_step hist_synced] in *. unfold OrchHist.fresh at 1. cbn [OrchHist.step snd].
+        match goal with |- context [run q (st, ?f) r] => specialize (IH (d || (p =? ign_path)) st f L R HS K C); destruct (run q (st, f) r) as [w2 xs] end.
+        cbn [fst snd] in *. constructor; [apply same_but_blocks_refl|]. apply IH. intros Hd. apply orb_false_iff in Hd. destruct Hd as [Hd Ht].
+        rewrite (S Hd). symmetry. apply (fs_get_untouched ign_path fs (Edit p c)). exact Ht.
+      + cbn [OrchHist.step fs_step hist_synced] in *. unfold OrchHist.fresh at 1. cbn [OrchHist.step snd].
+        match goal with |- context [run q (st, ?f) r] => specialize (IH (d || (p =? ign_path)) st f L R HS K C); destruct (run q (st, f) r) as [w2 xs] end.
+        cbn [fst snd] in *. constructor; [apply same_but_blocks_refl|]. apply IH. intros Hd. apply orb_false_iff in Hd. destruct Hd as [Hd Ht].
+        rewrite (S Hd). symmetry. apply (fs_get_untouched ign_path fs (Delete p)). exact Ht.
+      + cbn [OrchHist.step fs_step hist_synced] in *. unfold OrchHist.fresh at 1. cbn [OrchHist.step snd].
+        match goal with |- context [run q (st, ?f) r] => specialize (IH (d || (p =? ign_path)) st f L R HS K C); destruct (run q (st, f) r) as [w2 xs] end.
+        cbn [fst snd] in *. constructor; [apply same_but_blocks_refl|]. apply IH. intros Hd. apply orb_false_iff in Hd. destruct Hd as [Hd Ht].
+        rewrite (S Hd). symmetry. apply (fs_get_untouched ign_path fs (Add p c)). exact Ht.
+      + cbn [OrchHist.step fs_step hist_synced] in *. unfold OrchHist.fresh at 1. cbn [OrchHist.step snd]. rewrite R.
+        assert (SC : semi_clean (mk_init fs)) by (split; reflexivity).
+        specialize (IH false (mk_init fs) fs L R HS SC (coherent_init ignored _)). destruct (run q (mk_init fs, fs) r) as [w2 xs].
+        cbn [fst snd] in *. constructor; [apply same_but_blocks_refl|]. apply IH. intros _. reflexivity.
   Qed.
 
   Theorem stale_state_confined_to_blocks q fs0 h :
-    q_lintfile_leaves_evidence q = false ->
-    Forall2 same_but_blocks (snd (run q (init, fs0) h)) (fresh_run q fs0 h).
-  Proof. intros L. apply run_semi; [exact L|split; reflexivity|apply coherent_nil]. Qed.
+    q_lintfile_leaves_evidence q = false -> q_ignore_parser_reused q = false -> hist_synced ign_path false h = true ->
+    Forall2 same_but_blocks (snd (run q (mk_init fs0, fs0) h)) (fresh_run q fs0 h).
+  Proof.
+    intros L R HS. apply (run_semi q h false); try assumption; [split; reflexivity|apply coherent_init|intros _; reflexivity].
+  Qed.
 
   (* ---------- Theorem D: lint operations leave the file system alone ---------- *)
   Theorem lint_ops_preserve_fs q st fs o : lint_op o = true -> snd (fst (step q (st, fs) o)) = fs.
   Proof.
-    intros H. rewrite (step_fs V perfile rep_blocks rep_consts rep_st hard_excl ignored in_dir).
+    intros H. rewrite (step_fs V perfile rep_blocks rep_consts rep_st hard_excl ignored ign_path in_dir).
     destruct o; cbn [fs_step lint_op] in *; try reflexivity; discriminate.
   Qed.
 
@@ -268,7 +328,7 @@ Section Main.
 
   Definition st_perm (a b : ostate) : Prop :=
     Permutation (dry_rows a) (dry_rows b) /\ Permutation (dry_aux a) (dry_aux b)
-    /\ Permutation (st_ev a) (st_ev b) /\ coherent (icache a) /\ coherent (icache b).
+    /\ Permutation (st_ev a) (st_ev b) /\ ppats a = ppats b /\ coherent a /\ coherent b.
 
   Inductive op_perm : op -> op -> Prop :=
   | OP_files ps ps' : Permutation ps ps' -> op_perm (LintFiles ps) (LintFiles ps')
@@ -281,9 +341,9 @@ Section Main.
 
   Lemma out_perm_refl a : out_perm a a. Proof. repeat split; reflexivity. Qed.
 
-  Lemma evid_perm fs ps ps' : Permutation ps ps' -> Permutation (evid fs ps) (evid fs ps').
+  Lemma evid_perm pp fs ps ps' : Permutation ps ps' -> Permutation (evid pp fs ps) (evid pp fs ps').
   Proof. intros H. unfold OrchHistBase.evid. now apply Permutation_flat_map. Qed.
-  Lemma pfout_perm fs ps ps' : Permutation ps ps' -> Permutation (pfout fs ps) (pfout fs ps').
+  Lemma pfout_perm pp fs ps ps' : Permutation ps ps' -> Permutation (pfout pp fs ps) (pfout pp fs ps').
   Proof. intros H. unfold OrchHistBase.pfout. now apply Permutation_flat_map. Qed.
 
   Lemma run_entry_perm q entry fs st st' ps ps' :
@@ -291,23 +351,23 @@ Section Main.
     let r := run_entry q entry fs st ps in let r' := run_entry q entry fs st' ps' in
     out_perm (snd r) (snd r') /\ st_perm (fst r) (fst r').
   Proof.
-    intros O (P1 & P2 & P3 & C & C') P. cbn zeta.
-    pose proof (evid_perm fs ps ps' P) as Pe. pose proof (pfout_perm fs ps ps' P) as Pp.
+    intros O (P1 & P2 & P3 & PP & C & C') P. cbn zeta.
+    pose proof (evid_perm (ppats st) fs ps ps' P) as Pe. pose proof (pfout_perm (ppats st) fs ps ps' P) as Pp.
     destruct (finalizes entry) eqn:F.
-    - pose proof (run_entry_finalizing V perfile rep_blocks rep_consts rep_st hard_excl ignored q entry fs st ps F C) as (H1 & H2 & H3 & H4 & H5).
-      pose proof (run_entry_finalizing V perfile rep_blocks rep_consts rep_st hard_excl ignored q entry fs st' ps' F C') as (K1 & K2 & K3 & K4 & K5).
-      rewrite H1, K1. split.
+    - pose proof (REF q entry fs st ps F C) as (H1 & H2 & H3 & H4 & H5 & H6).
+      pose proof (REF q entry fs st' ps' F C') as (K1 & K2 & K3 & K4 & K5 & K6).
+      cbn zeta in *. rewrite <- PP in *. rewrite H1, K1. split.
       + unfold out_perm. cbn [o_pf o_blocks o_consts o_st]. unfold consts_view. rewrite O. cbn [andb].
         split; [exact Pp|]. split; [apply rep_blocks_perm; now apply Permutation_app|].
         split; [|apply rep_st_perm; now apply Permutation_app].
-        rewrite (fv_sort_perm_eq (dry_aux st ++ evid fs ps) (dry_aux st' ++ evid fs ps')); [reflexivity|now apply Permutation_app].
-      + unfold st_perm. rewrite H2, H3, H4, K2, K3, K4.
+        rewrite (fv_sort_perm_eq (dry_aux st ++ evid (ppats st) fs ps) (dry_aux st' ++ evid (ppats st) fs ps')); [reflexivity|now apply Permutation_app].
+      + unfold st_perm. rewrite H2, H3, H4, K2, K3, K4, H6, K6.
         split; [destruct (rows_kept q); [now apply Permutation_app|constructor]|]. repeat split; try constructor; assumption.
-    - pose proof (run_entry_plain V perfile rep_blocks rep_consts rep_st hard_excl ignored q entry fs st ps F C) as (H1 & H2 & H3 & H4 & H5).
-      pose proof (run_entry_plain V perfile rep_blocks rep_consts rep_st hard_excl ignored q entry fs st' ps' F C') as (K1 & K2 & K3 & K4 & K5).
-      rewrite H1, K1. split.
+    - pose proof (REP q entry fs st ps F C) as (H1 & H2 & H3 & H4 & H5 & H6).
+      pose proof (REP q entry fs st' ps' F C') as (K1 & K2 & K3 & K4 & K5 & K6).
+      cbn zeta in *. rewrite <- PP in *. rewrite H1, K1. split.
       + unfold out_perm. cbn [o_pf o_blocks o_consts o_st]. repeat split; try constructor. exact Pp.
-      + unfold st_perm. rewrite H2, H3, H4, K2, K3, K4. repeat split; try assumption; now apply Permutation_app.
+      + unfold st_perm. rewrite H2, H3, H4, K2, K3, K4, H6, K6. repeat split; try assumption; now apply Permutation_app.
   Qed.
 
   Lemma run_single_perm q entry fs st st' p :
@@ -319,8 +379,8 @@ Section Main.
     unfold OrchHist.run_single. destruct (run_entry q entry fs st [p]) as [s1 o1]. destruct (run_entry q entry fs st' [p]) as [s1' o1'].
     cbn [fst snd] in Ho, Hs. destruct (finalizes entry); [split; assumption|].
     destruct (q_lintfile_leaves_evidence q); cbn [fst snd]; [split; assumption|]. split; [exact Ho|].
-    destruct P as (P1 & P2 & P3 & _ & _). destruct Hs as (_ & _ & _ & C1 & C1').
-    unfold st_perm, keep_evidence. cbn [dry_rows dry_aux st_ev icache]. repeat split; assumption.
+    destruct P as (P1 & P2 & P3 & _ & _ & _). destruct Hs as (_ & _ & _ & PP1 & C1 & C1').
+    unfold st_perm, keep_evidence. cbn [dry_rows dry_aux st_ev icache ppats]. repeat split; assumption.
   Qed.
 
   Lemma step_perm q st st' fs o o' :
@@ -356,7 +416,7 @@ Section Main.
     - cbn [OrchHist.step]. specialize (ENT api_dir_entry _ _ (filter_perm (fun p => in_dir d p && match fs_get fs p with Some _ => true | None => false end) l l' Hp)). cbn zeta in ENT. unfold walk.
       match goal with |- context [run_entry q ?e fs st ?a] => destruct (run_entry q e fs st a) end.
       match goal with |- context [run_entry q ?e fs st' ?a] => destruct (run_entry q e fs st' a) end. exact ENT.
-    - destruct o as [p|ps|d l|[p|d l]|p c|p|p c]; cbn [OrchHist.step].
+    - destruct o as [p|ps|d l|[p|d l]|p c|p|p c|]; cbn [OrchHist.step].
       + specialize (SGL "lint_file" p). cbn zeta in SGL.
         destruct (run_single q "lint_file" fs st p); destruct (run_single q "lint_file" fs st' p). exact SGL.
       + specialize (ENT "lint_files" ps ps (Permutation_refl _)). cbn zeta in ENT.
@@ -371,6 +431,10 @@ Section Main.
       + apply TRIV.
       + apply TRIV.
       + apply TRIV.
+      + cbn [fst snd]. split; [apply out_perm_refl|]. split; [|reflexivity].
+        destruct P as (_ & _ & _ & PP & C & C'). destruct (q_ignore_parser_reused q).
+        * unfold st_perm. cbn [dry_rows dry_aux st_ev ppats icache]. repeat split; try constructor; assumption.
+        * unfold st_perm. repeat split; try reflexivity; apply coherent_init.
   Qed.
 
   Lemma run_perm q h : forall h' st st' fs,
@@ -384,23 +448,24 @@ Section Main.
     cbn [fst snd] in IH |- *. constructor; assumption.
   Qed.
 
-  Lemma st_perm_init : st_perm init init.
-  Proof. unfold st_perm. cbn [init dry_rows dry_aux st_ev icache]. repeat split; try constructor; apply coherent_nil. Qed.
+  Lemma st_perm_init pp : st_perm (init_st pp) (init_st pp).
+  Proof. unfold st_perm. cbn [init_st dry_rows dry_aux st_ev icache ppats]. repeat split; try constructor; apply coherent_init. Qed.
 
   (* permuting the file list of any call, and the order in which directories are walked, permutes the results *)
   Theorem order_independent q fs0 h h' :
     q_consts_in_processing_order q = false -> Forall2 op_perm h h' ->
-    Forall2 out_perm (snd (run q (init, fs0) h)) (snd (run q (init, fs0) h')).
+    Forall2 out_perm (snd (run q (mk_init fs0, fs0) h)) (snd (run q (mk_init fs0, fs0) h')).
   Proof. intros O X. apply run_perm; [exact O|apply st_perm_init|exact X]. Qed.
 
-  (* C08 as a whole: with the three flags off, every call of every history, in whatever order its files are
+  (* C08 as a whole: with the flags off, every call of every admissible history, in whatever order its files are
      passed or discovered, returns a permutation of what a fresh object returns for the canonical order *)
   Theorem results_depend_on_current_state_only q fs0 h h' :
     q_dry_keeps_storage q = false -> q_lintfile_leaves_evidence q = false -> q_consts_in_processing_order q = false ->
+    q_ignore_parser_reused q = false -> hist_synced ign_path false h = true ->
     Forall2 op_perm h h' ->
-    Forall2 out_perm (snd (run q (init, fs0) h')) (fresh_run q fs0 h).
+    Forall2 out_perm (snd (run q (mk_init fs0, fs0) h')) (fresh_run q fs0 h).
   Proof.
-    intros D L O X. rewrite <- (history_independent q fs0 h D L).
+    intros D L O R HS X. rewrite <- (history_independent q fs0 h D L R HS).
     apply run_perm; [exact O|apply st_perm_init|].
     clear -X. induction X; constructor; [|assumption].
     match goal with H : op_perm _ _ |- _ => destruct H; constructor; now apply Permutation_sym end.
